@@ -64,10 +64,10 @@ class C17(Prop):
         return ev, out
 
     def families(self, tier):
-        return [("oid-arcs", 3), ("oid-count", 3), ("community", 2), ("username", 1), ("capacity", 4)]
+        return [("oid-arcs", 3), ("oid-count", 3), ("community", 2), ("username", 1), ("capacity", 4), ("walk-long-oid", 2)]
 
     def expected_counters(self, tier):
-        return ["probe.sent-checked", "probe.encode-error-nothing-sent", "probe.crossed-127", "probe.crossed-255", "probe.crossed-capacity", "probe.after-failure-same-session", "probe.after-failure-other-session", "probe.long-form-2-octets", "probe.v3-priv-sweep", "probe.oid-tlv-long-form"]
+        return ["probe.sent-checked", "probe.encode-error-nothing-sent", "probe.crossed-127", "probe.crossed-255", "probe.crossed-capacity", "probe.after-failure-same-session", "probe.after-failure-other-session", "probe.long-form-2-octets", "probe.v3-priv-sweep", "probe.oid-tlv-long-form", "probe.wire-poison-differential"]
 
     def gen(self, rng, family, tier):
         flavour = rng.choice(["sync", "async"])
@@ -119,6 +119,22 @@ class C17(Prop):
                 if rng.random() < 0.3:
                     ops.append(small(0))
             return {"flavour": flavour, "agent": agent, "sessions": sessions, "ops": ops, "latency_ns": 1001, "sweep": family, "poison": rng.randrange(256)}
+        if family == "walk-long-oid":
+            # walks whose base (and, through the agent, follow-up) OIDs cross the 127/128-octet TLV boundary
+            agent.pop("echo", None)
+            start = rng.choice([118, 122, 124, 250])
+            rows = []
+            for j in range(rng.randint(3, 10)):
+                arcs = (1, 3, 6) + tuple(rng.randrange(0, 128) for _ in range(start + j))
+                rows.append([gen.oid_text(arcs), ["int", j]])
+            agent["mib"] = rows
+            for j in range(rng.randint(1, 3)):
+                opid += 1
+                m = rng.choice(["getnext", "getbulk", "fetch"]) if cfgname != "v1" else "getnext"
+                ops.append({"id": opid, "s": 0, "op": "walk", "method": m, "oid": rng.choice(["1.3.6", gen.oid_text((1, 3, 6) + tuple(rng.randrange(0, 128) for _ in range(start - 3 + j)))]), "limit": 12, "max_rep": rng.choice([1, 3])})
+                if m != "getbulk":
+                    del ops[-1]["max_rep"]
+            return {"flavour": flavour, "agent": agent, "sessions": sessions, "ops": ops, "latency_ns": 1001, "sweep": family, "poison": rng.randrange(256)}
         if family == "oid-arcs":
             # a single OID growing by one arc per step: OID TLV, varbind, list, PDU cross 127/128 or 255/256
             start = rng.choice([100, 105, 110, 115, 118, 225, 235, 240, 245])
@@ -159,8 +175,41 @@ class C17(Prop):
                     ops.append(small(rng.choice([0, 1])))
         return {"flavour": flavour, "agent": agent, "sessions": sessions, "ops": ops, "latency_ns": 1001, "sweep": family, "poison": rng.randrange(256)}
 
+    def execute(self, plan):
+        """Run twice with different fill bytes in never-written buffer memory: what goes on the
+        wire must not depend on them (the client 'never exposes bytes that were never written')."""
+        import copy
+
+        from .. import runner
+
+        run = runner.execute(plan)
+        run.alt = None
+        if any(s.get("version") == "v3" for s in plan["sessions"]) or plan.get("sweep") == "capacity":
+            p2 = copy.deepcopy(plan)
+            p2["poison"] = (plan.get("poison", 0xA5) ^ 0x3C) & 0xFF
+            run.alt = runner.execute(p2)
+            run.sim.count("probe.wire-poison-differential")
+        return run
+
     def check(self, run):
         out = []
+        if run.alt is not None:
+            a = [ev[4] for ev in run.sim.hist if ev[0] == "tx"]
+            b = [ev[4] for ev in run.alt.sim.hist if ev[0] == "tx"]
+            if a != b:
+                i = next((i for i in range(min(len(a), len(b))) if a[i] != b[i]), min(len(a), len(b)))
+                out.append(V("C17.wire-depends-on-unwritten-memory", "datagram #%d differs when never-written buffer memory is filled with another byte (%d vs %d octets)" % (i + 1, len(a[i]) // 2 if i < len(a) else 0, len(b[i]) // 2 if i < len(b) else 0), sweep=run.plan["sweep"]))
+        if run.plan.get("sweep") == "walk-long-oid":
+            for res in run.results:
+                for ex in run.exchanges(res):
+                    dec = run.wire_dec[(res["s"], ex["serial"])]
+                    run.sim.count("probe.sent-checked")
+                    if not dec.get("ok"):
+                        out.append(V("C17.sent-datagram-malformed", "a %d-octet %s request is not strictly decodable: %s" % (len(ex["hex"]) // 2, res["op"].get("method"), dec.get("error")), sweep="walk-long-oid"))
+                    elif any(len(ber.oid_content(o)) >= 128 for o in dec["pdu"]["varbinds"]):
+                        run.sim.count("probe.oid-tlv-long-form")
+            run.c17 = ("walk-long-oid", [], len(run.results))
+            return out
         recs = {}  # config key -> list of (lo, hi, sent_size | None)
         failed_before = {}
         any_failed = False
